@@ -4,6 +4,7 @@ package node
 
 import (
 	"github.com/holiman/uint256"
+	"github.com/rigochain/rigo-go/ctrlers/stake"
 	ctrlertypes "github.com/rigochain/rigo-go/ctrlers/types"
 	"github.com/rigochain/rigo-go/zzverif"
 	abcitypes "github.com/tendermint/tendermint/abci/types"
@@ -51,7 +52,16 @@ func ZZ_C05_A1() {
 	sc := zzSetup(false)
 	n := sc.n
 	sc.nondetTx(false)
-	n.begin(1, nil, nil)
+	// withdraw: the validator also signed the previous block, so that its reward
+	// object has already been updated in this block (BeginBlock) when the
+	// transaction runs - a failing withdraw must not take that update back
+	// (round 8, seed C05-h)
+	var votes []abcitypes.VoteInfo
+	if sc.typ == ctrlertypes.TRX_WITHDRAW {
+		d := stake.ZZDelegatee(n.app.stakeCtrler, zzAddr(0))
+		votes = []abcitypes.VoteInfo{{Validator: abcitypes.Validator{Address: zzAddr(0), Power: d.TotalPower}, SignedLastBlock: true}}
+	}
+	n.begin(1, votes, nil)
 	pre := n.snap(sc.frozenKeys, sc.propHash)
 	r := n.app.DeliverTx(abcitypes.RequestDeliverTx{Tx: sc.raw})
 	sc.reachOutcome(r.Code)
